@@ -1,1 +1,54 @@
-(* C03 *) From PMC Require Import Spec.Lemmas.
+(* C03 — CTL* model checking is exact for arbitrary quantifier / path-operator nesting
+   (CTLS/model_checking.py; model Model/CTLSmc.v: innermost-first elimination of quantified
+   subformulas through fresh atomic propositions on a labelled clone, CTL checker first, LTL
+   tableau for non-CTL A-formulas, E g ~> not A not g).  Theorems only; the proof (labelling
+   invariant + substitution lemma + name hygiene by counting '[' characters, using the
+   injectivity of the printer) is in Proofs/CTLSP.v, instantiated in Proofs/AssembleCTLS.v
+   with C01 (CTL), C02 (LTL) and printer injectivity.
+   [wf_K K] = the invariant of every constructed Kripke object (well-formed total graph,
+   one label entry per state, initial states are states); [ident_atoms f] = every atomic
+   proposition of f matches [a-zA-Z_][a-zA-Z_0-9]* and is not a reserved word;
+   [arity_ok f] = and/or have at least two operands. *)
+From PMC Require Import Spec.Lemmas Proofs.KripkeP Proofs.PrintP Proofs.AssembleCTLS.
+
+Theorem C03_exact : forall K f, wf_K K -> ctls_state f = true -> ident_atoms f = true -> arity_ok f = true ->
+  exists S, ctls_modelcheck K f = Ok S /\
+            forall s, In s S <-> (In s (states K) /\ holds K s f).
+Proof. exact ctls_exact. Qed.
+Print Assumptions C03_exact.
+
+(* every structure built by the Kripke constructor satisfies wf_K *)
+Theorem C03_applies_to_constructed : forall St St0 R L K, mk_kripke St St0 R L = Ok K -> wf_K K.
+Proof. intros St St0 R L K. exact (mk_kripke_wf_K PMC.Proofs.GraphP.mk_graph_spec St St0 R L K). Qed.
+Print Assumptions C03_applies_to_constructed.
+
+(* why the hypothesis on atom names is there (known findings KF-C03-a / KF-print-a): with an
+   atom that is spelled like a generated fresh name the model (as the code) answers wrongly *)
+From Coq Require Import String.
+Theorem C03_fresh_collision_refuted :
+  exists K f, wf_K K /\ ctls_state f = true /\ arity_ok f = true /\
+    ctls_modelcheck K f = Ok [] /\ exists s, In s (states K) /\ holds K s f.
+Proof.
+  pose (K := (mkK [(0, [0])] [] [(0, ["p"])])%string).
+  assert (HK : mk_kripke [0] [] [(0, 0)] [(0, ["p"])]%string = Ok K) by (vm_compute; reflexivity).
+  exists K, (FAnd [FE (FX (FAtom "p")); FNot (FAtom "[E(X(p))]")])%string.
+  split; [exact (C03_applies_to_constructed _ _ _ _ _ HK)|].
+  split; [reflexivity|]. split; [reflexivity|]. split; [vm_compute; reflexivity|].
+  assert (Hp : is_path K (fun _ => 0)) by (intro i; unfold edge; simpl; auto).
+  exists 0. split; [simpl; auto|].
+  exists (fun _ => 0). split; [exact Hp|]. split; [reflexivity|].
+  simpl. split.
+  - exists (fun _ => 0). split; [exact Hp|]. split; [reflexivity|].
+    unfold labelled, labels_of, suffix. simpl. auto.
+  - split; [|exact I]. unfold labelled, labels_of. simpl. intros [H|[]]. discriminate.
+Qed.
+Print Assumptions C03_fresh_collision_refuted.
+
+(* non-vacuity: nested quantifiers, a Boolean combination of temporal operators under E
+   (handled through not A not), an LTL-only A-formula *)
+Example C03_example :
+  let K := mkK [(0, [1]); (1, [1; 2]); (2, [0])] [] [(0, ["p"]); (1, ["p"; "q"]); (2, [])]%string in
+  ctls_modelcheck K (FE (FAnd [FG (FF (FAtom "q")); FF (FA (FX (FNot (FAtom "q"))))]))%string = Ok [0; 1; 2] /\
+  ctls_modelcheck K (FA (FOr [FG (FAtom "p"); FF (FNot (FAtom "p"))]))%string = Ok [0; 1; 2] /\
+  ctls_modelcheck K (FA (FF (FG (FAtom "q"))))%string = Ok [].
+Proof. vm_compute. repeat split. Qed.
